@@ -521,8 +521,9 @@ func c19LogsUnchanged(r *Run, s *c19State) {
 // c19FailOpen performs an Open that is expected to fail for a reason other than the lock and
 // then verifies that the lock state is unchanged: an Open the lock state allows must still
 // succeed, one it forbids must still fail.
-//   op.A: mode of the failing open (0 rw, 1 ro); op.B: 1 missing directory, 2 index header
-//   with wrong flags, 3 unaligned index
+//
+//	op.A: mode of the failing open (0 rw, 1 ro); op.B: 1 missing directory, 2 index header
+//	with wrong flags, 3 unaligned index
 func c19FailOpen(r *Run, s *c19State, op *Op) {
 	ro := op.A == 1
 	o := r.OOpts
